@@ -144,7 +144,8 @@ where
                 // Check if we can squeeze a bit more data from the other side to send in the same frame
                 let mut should_shutdown = false;
                 let mut read_error = None;
-                loop {
+                // (up to the size one frame may have: see `MAX_PUSH_PAYLOAD`)
+                while cumulated_len < crate::stream::MAX_PUSH_PAYLOAD {
                     let new_buf = match other.as_mut().poll_fill_buf(cx) {
                         Poll::Ready(Ok(new_buf)) => new_buf,
                         Poll::Ready(Err(e)) => {
